@@ -134,6 +134,13 @@ fn gen_pool(src: &mut Src) -> (Vec<Value>, Vec<String>) {
     let pat = regexo::render(&re);
     let subjects: Vec<J> = (0..4).map(|_| J::Str(regexo::gen_subject(&re, src))).collect();
     docs.push(J::Obj(vec![("s".into(), J::Arr(subjects)), ("p".into(), J::Str(pat.clone()))]));
+    // a deep, narrow document (many simultaneous levels of `..` when several threads walk it)
+    let depth = 40 + src.below(70);
+    let mut deep = J::Int(1);
+    for i in 0..depth {
+        deep = if i % 3 == 2 { J::Arr(vec![deep]) } else { J::Obj(vec![("a".into(), deep), ("b".into(), J::Int(i as i64))]) };
+    }
+    docs.push(deep);
     let mut queries: Vec<String> = vec![];
     let nq = 2 + src.below(3);
     for _ in 0..nq {
@@ -149,6 +156,11 @@ fn gen_pool(src: &mut Src) -> (Vec<Value>, Vec<String>) {
     queries.push("$..[?@==1]".to_string());
     queries.push("$..[?@==2]".to_string());
     queries.push("$..*".to_string());
+    queries.push("$..a".to_string());
+    queries.push("$..[?@.b > 3].b".to_string());
+    // queries the AST builder rejects after the grammar accepted them
+    queries.push("$[?@.a == 9007199254740993]".to_string());
+    queries.push("$[?length(@.*) > 1]".to_string());
     // acceptance is part of the result: near misses of pool queries (forbidden blanks) must stay Err whatever was parsed before
     let k = queries.len();
     for i in 0..2 {
@@ -210,25 +222,69 @@ fn random_history(src: &mut Src, obs: &mut Obs) -> Res {
             Err(e) => return Err(Failure::new(format!("harness inconsistency: fresh worker process failed: {}", e), json!({}))),
         }
     }
-    // the history, in this process, with one parsed query per text (parse once, evaluate many times)
+    // the history, in this process: one parsed query per text (parse once, evaluate many times); the
+    // documents are copied into ONE slot that is overwritten in place, so that the same address holds
+    // different content over time; every step goes through all entry points in a generated order
     let parsed: Vec<Option<JpQuery>> = queries.iter().map(|q| guarded(|| parse_json_path(q)).ok().and_then(|r| r.ok())).collect();
     let repeated = hist.len() > pairs.len();
+    let mut slot: Value = Value::Null;
     for (step, (d, q)) in hist.iter().enumerate() {
-        obs.eval(2);
-        let got = result_of(&docs[*d], &queries[*q]);
+        obs.eval(4);
+        let in_slot = src.bool();
+        if in_slot {
+            slot.clone_from(&docs[*d]);
+        }
+        let doc: &Value = if in_slot { &slot } else { &docs[*d] };
         let exp = &reference[&(*d, *q)];
-        let via_parsed = match &parsed[*q] {
-            Some(ast) => match guarded(|| js_path_process(ast, &docs[*d])) {
-                Ok(Ok(r)) => json!(r.into_iter().map(|x| json!([x.clone().path(), x.val().to_string()])).collect::<Vec<_>>()),
-                Ok(Err(_)) => json!("Err"),
-                Err(p) => json!(format!("panic: {}", p)),
-            },
-            None => json!("Err"),
+        let exp_paths: Option<Vec<String>> = exp.as_array().map(|a| a.iter().map(|x| x[0].as_str().unwrap_or("").to_string()).collect());
+        let exp_vals: Option<Vec<String>> = exp.as_array().map(|a| a.iter().map(|x| x[1].as_str().unwrap_or("").to_string()).collect());
+        let order = src.below(6);
+        let mut got = Value::Null;
+        let mut via_query = Value::Null;
+        let mut via_paths = Value::Null;
+        let mut via_parsed = Value::Null;
+        for k in 0..4 {
+            match (k + order) % 4 {
+                0 => got = result_of(doc, &queries[*q]),
+                1 => {
+                    via_query = match guarded(|| doc.query(&queries[*q])) {
+                        Ok(Ok(r)) => json!(r.iter().map(|x| x.to_string()).collect::<Vec<_>>()),
+                        Ok(Err(_)) => json!("Err"),
+                        Err(p) => json!(format!("panic: {}", p)),
+                    }
+                }
+                2 => {
+                    via_paths = match guarded(|| doc.query_only_path(&queries[*q])) {
+                        Ok(Ok(r)) => json!(r),
+                        Ok(Err(_)) => json!("Err"),
+                        Err(p) => json!(format!("panic: {}", p)),
+                    }
+                }
+                _ => {
+                    via_parsed = match &parsed[*q] {
+                        Some(ast) => match guarded(|| js_path_process(ast, doc)) {
+                            Ok(Ok(r)) => json!(r.into_iter().map(|x| json!([x.clone().path(), x.val().to_string()])).collect::<Vec<_>>()),
+                            Ok(Err(_)) => json!("Err"),
+                            Err(p) => json!(format!("panic: {}", p)),
+                        },
+                        None => json!("Err"),
+                    }
+                }
+            }
+        }
+        let ok_query = match &exp_vals {
+            Some(v) => via_query == json!(v),
+            None => via_query == json!("Err"),
         };
-        if got != *exp || via_parsed != *exp {
+        let ok_paths = match &exp_paths {
+            Some(v) => via_paths == json!(v),
+            None => via_paths == json!("Err"),
+        };
+        if got != *exp || via_parsed != *exp || !ok_query || !ok_paths {
             return Err(Failure::new(
                 "the result of an evaluation depends on the history of earlier evaluations (it differs from the same pair evaluated first in a fresh process)",
-                json!({"step": step, "query": queries[*q], "doc": docs[*d], "in_history": got, "in_history_via_parsed_query": via_parsed, "fresh_process": exp,
+                json!({"step": step, "query": queries[*q], "doc": docs[*d], "query_with_path": got, "query": via_query, "query_only_path": via_paths, "js_path_process(parsed once)": via_parsed, "fresh_process": exp,
+                       "document_in_reused_slot": in_slot,
                        "history": hist.iter().take(step + 1).map(|(d, q)| json!([d, queries[*q]])).collect::<Vec<_>>(), "docs": docs}),
             ));
         }
@@ -258,7 +314,9 @@ fn random_threads(src: &mut Src, obs: &mut Obs) -> Res {
                 .map(|_| {
                     // half of the threads hammer one shared pair, the others run colliding queries
                     if t % 2 == 0 {
-                        (0, queries.len() - 1 - (t / 2) % 2, src.chance(1, 4))
+                        // the deep document under `$..a` / `$..*` (index of "$..a" and "$..*" in the pool)
+                        let qi = queries.iter().position(|q| q == if (t / 2) % 2 == 0 { "$..a" } else { "$..*" }).unwrap_or(0);
+                        (docs.len() - 1, qi, src.chance(1, 4))
                     } else {
                         (src.below(docs.len()), src.below(queries.len()), src.chance(1, 4))
                     }
